@@ -156,10 +156,31 @@ TEXT['C07'] = (
 TECHNIQUE = 'deterministic simulation with fault injection (seeded schedule/history search, reference-model oracle, ddmin replay)'
 
 
+# what the generators learnt from the seeded changes of round 2 (DESIGN.md 9.3)
+ALSO = {
+    'C01': ' Also generated: whole-number and list-typed wavenumbers, in-place edits (x *= f; mutate and assign back), a '
+           'linear-scaling electronic mode, user-set constant modes (additivity clause only), harmonic q at both energy zeros.',
+    'C05': ' Also: every clean write is followed by a second generation (the species just read are written and read again), '
+           'and a supplementary record may share a name with a list species.',
+    'C06': ' Also generated: pressure series at one temperature in write_EA, sticking coefficients 0 and 1, one equal CatSite '
+           'object per species.',
+    'C07': ' Also generated: published-style adsorbate names (hyphens) and up to 12 adsorbates per surface so that CTI lists wrap.',
+    'C08': ' Also generated: BEP relations as transition states shared by several reactions (independent Ea model), species '
+           'names differing only in case or by a prefix/suffix.',
+    'C10': ' extend() is given lists, tuples, generators and iterators.',
+    'C11': ' Also: clear_offset() as an edit, and a restart op in which the JSON text is decoded by a fresh interpreter that '
+           'imported nothing but pmutt.io.json (only the durable text survives).',
+    'C13': ' The pressure adjustment is also handed over in its serialised (dictionary) form.',
+    'C16': ' The solver seam can also give up with an SLSQP exit mode 3-9 at a feasible non-optimal point, and the thermdat '
+           'route rewrites the file in place between two loads.',
+}
+
+
 def build():
     checks = []
     for prop in sorted(worlds.REGISTRY):
         text, ref = TEXT[prop]
+        text = text + ALSO.get(prop, '')
         checks.append({
             'property_id': prop,
             'quick_cmd': './check %s --tier quick' % prop,
